@@ -82,6 +82,10 @@ pub fn judge(scn: &Scenario, res: &ExecResult, _base: Option<&ExecResult>) -> Ve
             }
         }
     }
+    // "with its input stream intact": whatever a spectator was handed is what its host used
+    if !scn.specs.is_empty() && !scn.handshake_phase {
+        crate::props::drop::check_spectator_equals_host(scn, res, "C05", &mut out);
+    }
     if scn.handshake_phase {
         for (ni, nt) in res.nodes.iter().enumerate() {
             if nt.crashed.is_none() && !nt.calls.last().map(|c| c.running).unwrap_or(false) {
@@ -199,10 +203,12 @@ pub fn c05() -> i32 {
     {
         let mut scns = Vec::new();
         let max_len = if t { 110 } else { 58 };
-        for (tp, spec) in [("1+1", None), ("1+1", Some((0usize, 1usize))), ("1+1", Some((8, 1))), ("2+1", None), ("2+2", Some((8, 3))), ("2+1", Some((2, 5)))] {
+        for (tp, spec) in [("1+1", None), ("1+1", Some((0usize, 1usize))), ("1+1", Some((8, 1))), ("2+1", None), ("2+2", Some((8, 3))), ("2+1", Some((2, 5))), ("1+1", Some((8, 8))), ("1+1", Some((2, 70)))] {
             for w in [0usize, 1, 2, 8] {
                 for d in [0usize, 2] {
-                    if !t && (d == 2 && w != 2 || tp == "2+1" && w < 2 || tp == "2+2" && w != 8) {
+                    // (the last two: catch-up speeds far above max_frames_behind = 4)
+                    let big_catchup = spec.map(|x| x.1 >= 8).unwrap_or(false);
+                    if !t && (d == 2 && w != 2 || tp == "2+1" && w < 2 || tp == "2+2" && w != 8 || big_catchup && w != 2) {
                         continue;
                     }
                     let base = {
